@@ -51,10 +51,15 @@ def build(label, paths=None):
         return None
 
 
-def backslash_target(renderer):
+def backslash_target(renderer, label=None):
     """does the TARGET engine of this renderer treat backslash as an escape character inside string literals?
-    Decided from SQLAlchemy's class hierarchy (MySQL family incl. MariaDB), not from anything in mindsdb_sql."""
+    Decided from SQLAlchemy's class hierarchy (MySQL family incl. MariaDB), not from anything in mindsdb_sql — and from
+    the engine the NAME stands for when the library substitutes another dialect: `Snowflake` is rendered with the
+    Oracle dialect, but Snowflake reads backslash escape sequences inside single-quoted constants (Snowflake SQL
+    reference, "String constants"; not verifiable offline)."""
     from sqlalchemy.dialects.mysql.base import MySQLDialect
+    if label is not None and label.lower() in ('name:snowflake', 'snowflake'):
+        return True
     return isinstance(renderer.dialect, MySQLDialect)
 
 
@@ -84,5 +89,5 @@ def probe_all():
         if r is None:
             rows.append((label, False, '', False, ''))
         else:
-            rows.append((label, True, r.dialect.name, backslash_target(r), observed_codec(r)))
+            rows.append((label, True, r.dialect.name, backslash_target(r, label), observed_codec(r)))
     return rows
